@@ -158,6 +158,15 @@ int flex_main (int argc, char *argv[])
 				if( exit_status <= 1 )
 					exit_status = 2;
 
+				/* A child that exits with a status has said
+				 * why; one that was killed (by a file size
+				 * limit, for instance) could not.
+				 */
+				if (WIFSIGNALED (child_status))
+					fprintf (stderr,
+						 _("%s: an output filter process was terminated by signal %d, the output is incomplete\n"),
+						 program_name,
+						 WTERMSIG (child_status));
 			}
 		}
 		return exit_status - 1;
